@@ -186,32 +186,45 @@ class C01(Property):
     quick_cases = 260
     thorough_cases = 8000
     design_ref = "DESIGN.md §6/C01"
-    level_text = ("Unbounded Rocq theorems over every history of calls (all entry points, outcomes, time gaps, draws) and "
-                  "every interleaving of concurrent calls: a rejection implies non-accepted > protection + (minK-1)*accepted "
-                  "over the window accept() read; exact accounting per entry point and outcome, lifted to window sums = "
-                  "calls recorded in the last `buckets` intervals; force-pass guarantees admission more than "
-                  "forcePassDuration after the previous throttled admission for every draw; total failure rejects every "
-                  "draw below (T-protection)/(T+1). The model is tied to core/breaker by white-box differential "
-                  "execution under a virtual clock with injected draws; constants are re-extracted from the source and "
-                  "their side conditions re-proved at every run.")
+    level_text = ("Unbounded Rocq theorems over every history of calls (all entry points, ten request outcomes including the "
+                  "breaker's own sentinel values returned by the request itself, time gaps, draws), every interleaving of "
+                  "concurrent calls, and every history of a SYSTEM of breakers (plain instances, names of the package-level "
+                  "registry created at first use, NoBreakerFor, calls nested to any depth): a rejection implies non-accepted > "
+                  "protection + (minK-1)*accepted over the window accept() read; exact accounting per entry point and outcome "
+                  "(request / fallback run counts over whole histories, the returned value is the request's), lifted to window "
+                  "sums = calls recorded in the last `buckets` intervals; force-pass guarantees admission more than "
+                  "forcePassDuration after the previous throttled admission for every draw and total failure rejects every draw "
+                  "below (T-protection)/(T+1) - sequentially and under every interleaving; every step of every breaker of a "
+                  "system is a step of the sequential model after a history of that breaker alone, call trees touch the breakers "
+                  "on their path only. Wrapper call sites (REST, zrpc client/server, redis hook, every breaker-wrapped sqlx "
+                  "method) resolve exactly once per their acceptability table. The model is tied to the code by white-box "
+                  "differential execution under a virtual clock with injected draws; constants are re-extracted from the source "
+                  "and their side conditions re-proved at every run; pinned refuted variants for two seeded changes.")
     level_note = ("Trusted: Coq kernel + vm_compute; hand-written model; float64 vs exact rational arithmetic (near-ties "
                   "are skipped for agreement, the property check uses the property's own constants); overlay files "
                   "replace core/timex/relativetime.go and add a constructor to core/mathx.")
-    rule = ("histories of 1..400 calls over 6 entry points x 3 context modes x 4 outcomes, gaps in {0, <250ms, k*250ms+-1ns, "
-            "1s+-1ns, 10s+-1ns, several windows}, request durations, draws in {0, 2^-40, random 53-bit, 1-2^-53}; "
-            "plus ~15% forced interleavings of 2..44 concurrent calls (start/finish actions gated in the request callback); "
-            "non-trivial = (sequential) at least one rejection AND at least one throttled admission (a draw was made and the call "
-            "was admitted, or lastPass moved) AND at least 3 entry points used, (concurrent) some call's start and finish are "
-            "separated by another call's action AND at least one rejection; distinct = canonical JSON hash")
+    rule = ("sequential histories of 1..400 calls over 6 entry points x 4 context modes (none, live, done, cancelled by the request "
+            "itself) x 10 outcomes (ok, unacceptable / acceptable error, panic, ErrServiceUnavailable bare / %w-wrapped, "
+            "context.Canceled / DeadlineExceeded under a live context, the fallback's own value, panic(ErrServiceUnavailable)), gaps in "
+            "{0, <250ms, k*250ms+-1ns, 1s+-1ns, 10s+-1ns, several windows, hours..months}, request durations, draws in {0, 2^-40, random "
+            "53-bit, 1-2^-53}; ~14% forced interleavings of 2..44 concurrent calls; ~10% systems of 2..4 breakers (plain / registry names "
+            "differing in case, trailing blank, prefix; method or package-level helper; NoBreakerFor; call trees of depth 1..3 towards a "
+            "downstream breaker that is open; a done-context call on every breaker at the end); ~8% wrapper cases (REST histories; gRPC "
+            "client/server, redis hook, 15 sqlx methods x error classes incl. wrapped sentinels, WithAcceptable options, scan failures). "
+            "non-trivial = (sequential) at least one rejection AND at least one throttled admission AND at least 3 entry points used, "
+            "(concurrent) some call's start and finish are separated by another call's action AND at least one rejection, (multi) at "
+            "least two breakers used AND a rejection; distinct = canonical JSON hash")
     trusted_base = [
-        "model theories/C01/Model.v is hand-written; tie = white-box correspondence run (harness/overlay/breaker/verif_c01_test.go) on generated histories",
+        "model theories/C01/Model.v, Multi.v, WrapModel.v are hand-written; tie = white-box correspondence run (harness/overlay/breaker/verif_c01*_test.go, harness/overlay/wrappers/*) on generated histories",
         "float64 (Go) vs exact Q (model): near-ties (relative margin < 2^-30, or an exact tie with failingBuckets > 0) end the agreement comparison of a history; not a verified float development",
-        "overlay replaces core/timex/relativetime.go (virtual clock) and adds core/mathx/proba_verif.go (NewProbaWithSource); the bit-level relation draw = m/2^53 is re-checked at every run",
+        "overlay replaces core/timex/relativetime.go (virtual clock) and adds core/mathx/proba_verif.go (NewProbaWithSource), core/breaker/verif_probe.go; for REST replaces core/mathx/proba.go; the bit-level relation draw = m/2^53 is re-checked at every run",
         "constants translator (regex + exact fractions) in tools/props/c01.py",
         "atomicity of the three steps read / decide / mark of a concurrent call is assumed (RWMutex, atomics)",
+        "prop_ok's reference window (interval index -> sums) is compared with the implementation's history() at every call, not proved equal to the model's window in Coq",
     ]
     assumptions = ["times are positive (timex.Now() > 0) and non-decreasing",
-                   "the acceptability predicate and the fallback are pure and do not re-enter the breaker"]
+                   "the acceptability predicate and the fallback are pure and do not re-enter the breaker",
+                   "a request does not re-enter a breaker it is running under (such call trees are interleavings: concurrent model)"]
 
     # ---- translator
     def regen(self, ctx):
